@@ -46,9 +46,20 @@ int vnadata_set_z0_vector(vnadata_t *vdp,
     }
     ports = MAX(vdp->vd_rows, vdp->vd_columns);
     if (vdip->vdi_flags & VF_PER_F_Z0) {
+	/*
+	 * The caller's vector may be one vnadata_get_fz0_vector returned,
+	 * which the conversion frees: copy it first.
+	 */
+	double complex temp[MAX(ports, 1)];
+
+	(void)memcpy((void *)temp, (void *)z0_vector,
+		ports * sizeof(double complex));
 	if (_vnadata_convert_to_z0(vdip) == -1) {
 	    return -1;
 	}
+	(void)memcpy((void *)vdip->vdi_z0_vector, (void *)temp,
+		ports * sizeof(double complex));
+	return 0;
     }
     (void)memcpy((void *)vdip->vdi_z0_vector, (void *)z0_vector,
 	    ports * sizeof(double complex));
